@@ -402,7 +402,7 @@ func ruleResetCover(c *RC) *RuleResult {
 		return r
 	}
 	for i := 0; i < st.NumFields(); i++ {
-		f := st.Field(i).Name()
+		f := c.Prog.fieldRole(st.Field(i), st.Field(i).Name())
 		r.Sites++
 		if why, ok := carryOver[f]; ok {
 			r.ok("carry-over " + f + ": " + why)
@@ -551,17 +551,13 @@ func ruleCacheAgree(c *RC) *RuleResult {
 			for _, cl := range sw.Body.List {
 				cc := cl.(*ast.CaseClause)
 				stores := false
+				// the arm selects a bucket: it stores into an inbox field, or picks the inbox field that the one store
+				// after the switch writes to
 				ast.Inspect(cc, func(m ast.Node) bool {
-					if as, ok := m.(*ast.AssignStmt); ok {
-						for _, l := range as.Lhs {
-							if ix, ok := ast.Unparen(l).(*ast.IndexExpr); ok {
-								if sel, ok := ast.Unparen(ix.X).(*ast.SelectorExpr); ok {
-									if s := info.Selections[sel]; s != nil && c.Prog.FieldOwner[s.Obj().(*types.Var).Origin()] == "inbox" {
-										stores = true
-										lb[sel.Sel.Name] = true
-									}
-								}
-							}
+					if sel, ok := m.(*ast.SelectorExpr); ok {
+						if s := info.Selections[sel]; s != nil && s.Kind() == types.FieldVal && c.Prog.FieldOwner[s.Obj().(*types.Var).Origin()] == "inbox" {
+							stores = true
+							lb[sel.Sel.Name] = true
 						}
 					}
 					return true
@@ -574,7 +570,23 @@ func ruleCacheAgree(c *RC) *RuleResult {
 					}
 				}
 			}
-			if len(lb) > 0 {
+			// ... and the function stores its payload parameter into a map
+			storesParam := false
+			ast.Inspect(fn.Decl.Body, func(m ast.Node) bool {
+				if as, ok := m.(*ast.AssignStmt); ok && len(as.Lhs) == 1 && len(as.Rhs) == 1 {
+					if _, isIdx := ast.Unparen(as.Lhs[0]).(*ast.IndexExpr); isIdx {
+						if id, ok := ast.Unparen(as.Rhs[0]).(*ast.Ident); ok {
+							for _, p := range fn.Params {
+								if info.Uses[id] == p {
+									storesParam = true
+								}
+							}
+						}
+					}
+				}
+				return true
+			})
+			if len(lb) > 0 && storesParam {
 				writer = fn
 				for k := range local {
 					covered[k] = true
@@ -886,11 +898,11 @@ func ruleViewResetCover(c *RC) *RuleResult {
 	st := c.Prog.Structs["Context"]
 	have := map[string]bool{}
 	for i := 0; i < st.NumFields(); i++ {
-		have[st.Field(i).Name()] = true
+		have[c.Prog.fieldRole(st.Field(i), st.Field(i).Name())] = true
 	}
 	// closed world: every Context field is classified as per-view or per-height; a new field must be reviewed and tabled
 	for i := 0; i < st.NumFields(); i++ {
-		f := st.Field(i).Name()
+		f := c.Prog.fieldRole(st.Field(i), st.Field(i).Name())
 		_, pv := perView[f]
 		_, ph := perHeight[f]
 		r.Sites++
